@@ -9,6 +9,7 @@ documented rule" must return the documented failure value.
 """
 import math
 import os
+import re
 import sys
 
 import numpy as np
@@ -195,6 +196,27 @@ def main():
     chk.harness_errors += errs
     chk.counters["monitor_canaries_noticed"] = sum(1 for v in seen.values()
                                                    if v)
+    # the histories of the listed known findings of this property are
+    # replayed in every run: a finding that is still there is reported as
+    # KNOWN-FINDING, one that has been repaired simply no longer shows
+    for key, (kprop, ktext) in sorted(R.load_known().items()):
+        m = re.search(r"witness (findings/\S+\.script)", ktext)
+        if kprop != PROP or m is None:
+            continue
+        wpath = os.path.join(R.VERIF, m.group(1).rstrip(");,"))
+        if not os.path.exists(wpath):
+            chk.harness_errors.append("known finding %s: witness %s missing"
+                                      % (key, wpath))
+            continue
+        text = "\n".join(l for l in open(wpath).read().split("\n")
+                         if not l.startswith("#")) + "\n"
+        res = R.run_cases(binary, [("known", text)],
+                          os.path.join(chk.workroot, "known"))["known"]
+        v, inc = R.standard_violations(res, text, PROP)
+        for x in v:
+            chk.violation(x["key"], x["desc"], x.get("script"))
+        chk.counters["known_finding_histories_replayed"] = chk.counters.get(
+            "known_finding_histories_replayed", 0) + 1
     nio = 18 if chk.tier == "quick" else 90
     payloads = [(chk.seed, per, nops, binary, chk.workroot, membin, memper,
                  clang_bin, fibin, nio) for i in range(nchunks)]
